@@ -7,7 +7,7 @@ import pymc
 from pymc import LANGS, T, to_tree, lang_of, UNARY, BINARY, NARY
 
 RESERVED = {'true', 'false', 'not', 'or', 'and', 'A', 'E', 'X', 'F', 'G', 'U', 'R'}
-TOK_RE = re.compile(r'\s*(?:(?P<w>[a-zA-Z_][a-zA-Z_0-9]*)|(?P<e>"(?:[^"\\]|\\.)*")|(?P<lp>\()|(?P<rp>\))|(?P<s>-->|~|\||&)|(?P<bad>\S))')
+TOK_RE = re.compile(r'\s*(?:(?P<w>[a-zA-Z_][a-zA-Z_0-9]*)|(?P<e>"(?:[^"\\\n]|\\[^\n])*")|(?P<lp>\()|(?P<rp>\))|(?P<s>-->|~|\||&)|(?P<bad>\S))')
 
 
 def tokenise(text):
@@ -54,6 +54,19 @@ def build(tree, Lang, style='obj'):
     name = UNARY.get(t) or BINARY.get(t) or NARY.get(t)
     if not hasattr(Lang, name):
         raise NoSymbol(name)
+    if style == 'ops' and (t == 'not' or (t in ('and', 'or') and len(tree) == 3)):
+        # construction through the overloaded Python operators ~ & | ; a leaf left operand is passed raw, so that the
+        # reflected operators (__rand__/__ror__) are exercised too
+        if t == 'not':
+            return ~build(tree[1], Lang, style)
+        lhs, rhs = tree[1], build(tree[2], Lang, style)
+        if lhs[0] == 'ap':
+            lhs = lhs[1]
+        elif lhs[0] in ('true', 'false'):
+            lhs = lhs[0] == 'true'
+        else:
+            lhs = build(lhs, Lang, style)
+        return (lhs & rhs) if t == 'and' else (lhs | rhs)
     args = []
     for x in tree[1:]:
         if style == 'raw' and x[0] == 'ap':
